@@ -81,7 +81,9 @@ func genCase(t *rapid.T) Case {
 			op = Op{Kind: "sync"}
 		default:
 			if suspended {
-				op = Op{Kind: "resume"}
+				// On: the terminal cannot be taken back at first (the tty's Start fails once); the
+				// application retries
+				op = Op{Kind: "resume", On: rapid.IntRange(0, 3).Draw(t, "startfails") == 0}
 			} else {
 				op = Op{Kind: "suspend"}
 			}
@@ -331,6 +333,23 @@ func prop(c Case) error {
 			continue
 		case "resume":
 			var rerr error
+			if op.On {
+				r.Tty.SetStartErr(fmt.Errorf("tty busy"))
+				before := len(r.Tty.Log())
+				if err := guard("Resume while the tty's Start fails", func() { rerr = s.Resume() }); err != nil {
+					return err
+				}
+				r.Tty.SetStartErr(nil)
+				if rerr == nil {
+					return fmt.Errorf("step %d: Resume returned nil although the tty's Start failed", i)
+				}
+				// nothing may be written to a terminal that was not taken back
+				for _, e := range r.Tty.Log()[before:] {
+					if e.Name == "Write" {
+						return fmt.Errorf("step %d: Resume failed because the tty's Start failed, yet it wrote to the tty", i)
+					}
+				}
+			}
 			if err := guard("Resume", func() { rerr = s.Resume() }); err != nil {
 				return err
 			}
@@ -409,7 +428,7 @@ func classes(c Case) []string {
 func TestProp(t *testing.T) {
 	defer pbt.Recover(t)
 	entries = tsrun.ECMAEntries()
-	pbt.Describe("rapid histories (<= 25 ops quick / 50 thorough) of EnableMouse(flag subsets, or no argument)/DisableMouse/EnablePaste/DisablePaste/EnableFocus/DisableFocus/SetCursorStyle(+colour)/SetTitle/ShowCursor/SetContent/Show/Sync interleaved with Suspend/Resume cycles, ending in Fini or Suspend, on a real terminfo screen for every ECMA-48-family registered name with TCELL_ALTSCREEN unset or 'disable'; a shell title is set on the reference terminal before Init. When Fini/Suspend returns the reference terminal's registers must say: alternate screen left, cursor visible with default shape and colour, attributes off and colours default (or as after op), alternate charset off, keypad/cursor-key application modes off, ?1000/?1002/?1003/?1006/?2004/?1004 off, auto-margin on (entries with smam), saved title restored; the fake tty's ordered call log must show Drain and resize-callback unregistration before Stop, no Write/Read after Stop, Close only at Fini. After every mode call and after Resume the registers must equal the application's last requests. Non-trivial = a mode enabled at shutdown and >= 1 Suspend/Resume cycle; distinct = hash of the case.",
+	pbt.Describe("rapid histories (<= 25 ops quick / 50 thorough) of EnableMouse(flag subsets, or no argument)/DisableMouse/EnablePaste/DisablePaste/EnableFocus/DisableFocus/SetCursorStyle(+colour)/SetTitle/ShowCursor/SetContent/Show/Sync interleaved with Suspend/Resume cycles (a quarter of the Resumes first fail once because the tty's Start fails: nothing may be switched on by the failed attempt, and the retry re-applies the modes), ending in Fini or Suspend, on a real terminfo screen for every ECMA-48-family registered name with TCELL_ALTSCREEN unset or 'disable'; a shell title is set on the reference terminal before Init. When Fini/Suspend returns the reference terminal's registers must say: alternate screen left, cursor visible with default shape and colour, attributes off and colours default (or as after op), alternate charset off, keypad/cursor-key application modes off, ?1000/?1002/?1003/?1006/?2004/?1004 off, auto-margin on (entries with smam), saved title restored; the fake tty's ordered call log must show Drain and resize-callback unregistration before Stop, no Write/Read after Stop, Close only at Fini. After every mode call and after Resume the registers must equal the application's last requests. Non-trivial = a mode enabled at shutdown and >= 1 Suspend/Resume cycle; distinct = hash of the case.",
 		"mode expectations are derived from the description: mouse modes only on entries with kmous, paste/focus/title on entries the library documents as supporting them (not linux)",
 		"drawing calls while suspended are not generated here (C06 covers calls on a stopped screen); mode calls while suspended are",
 		"hyperlink state at exit is not asserted (not in the statement)")
